@@ -502,7 +502,7 @@ pub fn worker_main(args: &[String]) -> i32 {
     let part: usize = args[2].parse().unwrap();
     let nparts: usize = args[3].parse().unwrap();
     let tier = if args[4] == "thorough" { Tier::Thorough } else { Tier::Quick };
-    set_time_cap(tier.pick(200.0, 1200.0));
+    set_time_cap(tier.pick(800.0, 1200.0));
     let scs = scenarios(tier);
     let sc = &scs[si];
     let bodies: Vec<Body> = (0..sc.calls.len()).map(|t| make_body(sc, t, false)).collect();
